@@ -1172,7 +1172,40 @@ def oracle(spec):
         fails.append(Failure("Opaque.to_model", "export-changed-by-resolution", _str_diff(s0["model"], s1["model"])))
     if s2 != s1:
         fails.append(Failure(site, "not-idempotent", ""))
+    if not fails:
+        fails.extend(_holes_check(spec, reg))
     return fails
+
+
+def _holes_check(spec, reg):
+    """Resolution reaches EVERY node of a HUGR with a past: two nodes are added after loading (copies of an operation
+    the HUGR already holds), the first is deleted again — its index stays vacant — and the HUGR is resolved: the copy that
+    sits behind the hole ends up exactly as the node it was copied from (seeded change C11-15: the node table walked up
+    to the number of live nodes, which stops short of the last slots when indices are vacant)."""
+    import copy as _copy
+
+    from hugr import ops
+    from hugr.hugr import Hugr
+
+    try:
+        if spec["kind"] == "op":
+            h = Hugr(bridge.build_op(spec["op"]))
+        else:
+            h = Hugr.load_json(doc_of(spec["src"]))
+        src = next((n for n in h if isinstance(h[n].op, ops.Custom)), None)
+        if src is None:
+            return []
+        a = h.add_node(_copy.deepcopy(h[src].op), h.root)
+        b = h.add_node(_copy.deepcopy(h[src].op), h.root)
+        h.delete_node(a)
+        h.resolve_extensions(reg)
+    except Exception:  # noqa: BLE001
+        return []
+    want, got = _op_spec(h[src].op), _op_spec(h[b].op)
+    if want != got:
+        return [Failure("Hugr.resolve_extensions", "node-behind-a-vacant-index-not-resolved-like-its-twin",
+                        f"node {b.idx}: {_sx_op(got)[:200]} where node {src.idx} became {_sx_op(want)[:200]}")]
+    return []
 
 
 def _kind_cls(k):
